@@ -8,6 +8,7 @@ joined by union (may-analysis), so `if fit_clf: clf = clone(clf).fit(..)` leaves
 afterwards.  Conservative; fail-closed."""
 import ast
 import os
+from ..repo_root import REPO
 
 FRESH_CALLS = {"clone", "deepcopy", "copy"}
 MUTATING = {"fit", "partial_fit", "set_params", "set_base_clf"}
@@ -113,7 +114,7 @@ def analyse_function(fn, rel, owner):
     return sites
 
 
-def scan(root="/repo/skactiveml/pool"):
+def scan(root=REPO + "/skactiveml/pool"):
     out = []
     n_funcs = 0
     for dp, dn, fs in os.walk(root):
@@ -123,7 +124,7 @@ def scan(root="/repo/skactiveml/pool"):
             if not f.endswith(".py"):
                 continue
             path = os.path.join(dp, f)
-            rel = os.path.relpath(path, "/repo")
+            rel = os.path.relpath(path, REPO)
             tree = ast.parse(open(path).read())
             for node in ast.walk(tree):
                 if isinstance(node, ast.ClassDef):
@@ -149,7 +150,7 @@ REVIEWED = {
 }
 
 
-def rows(root="/repo/skactiveml/pool"):
+def rows(root=REPO + "/skactiveml/pool"):
     sites, n = scan(root)
     return [(f, fn, line, what, (f, fn, what) in REVIEWED) for f, fn, line, what in sites], n
 
